@@ -307,6 +307,7 @@ func main() {
 	coqBudget := flag.Int("coq", 3000, "cases handed to Coq")
 	nlife := flag.Int("life", 200, "scripted lives")
 	nasync := flag.Int("async", 50, "asynchronous cancellations")
+	ndepth := flag.Int("depth", 0, "unbounded-recursion runs to the frame-depth limit (about 10 s each)")
 	flag.Parse()
 	r := hx.NewRand(*seed)
 	progs := append([]prog{}, fixed...)
@@ -439,6 +440,36 @@ func main() {
 					}
 				}
 			}
+		}
+	}
+	// depth: unbounded recursion without a step limit ends with an error at the frame-depth limit
+	{
+		maxDepth := 0
+		pre := starlark.StringDict{"d": starlark.NewBuiltin("d", func(t *starlark.Thread, _ *starlark.Builtin, _ starlark.Tuple, _ []starlark.Tuple) (starlark.Value, error) {
+			if n := t.CallStackDepth(); n > maxDepth {
+				maxDepth = n
+			}
+			return starlark.None, nil
+		})}
+		for di, src := range []string{"def f(n):\n    d()\n    return f(n + 1)\nf(0)\n", "def f(n):\n    d()\n    return g(n)\ndef g(n):\n    return [f(n + 1) for _ in range(1)]\nf(0)\n"} {
+			if di >= *ndepth {
+				break
+			}
+			maxDepth = 0
+			th := &starlark.Thread{}
+			_, err := starlark.ExecFileOptions(opts, th, "p.star", src, pre)
+			res, reason := classify(err)
+			viol := ""
+			if res != "err" {
+				viol = fmt.Sprintf("unbounded recursion ended with %s/%d", res, reason)
+			}
+			if maxDepth > 100001 {
+				viol = fmt.Sprintf("call stack reached depth %d", maxDepth)
+			}
+			if th.CallStackDepth() != 0 {
+				viol = "call stack not empty after return"
+			}
+			hx.Emit(line{Kind: "depth", Prog: "unbounded-rec-unlimited", Src: src, N: uint64(maxDepth), Obs: &obs{Res: res, Reason: reason, Steps: th.ExecutionSteps(), Depth: th.CallStackDepth()}, Viol: viol})
 		}
 	}
 	// life: scripted sequences on one thread
